@@ -195,6 +195,16 @@ def all_inherited_axes_combined(spec, case):
     return False
 
 
+def split_over_multi_axis_list(spec, case):
+    """some node splits over the list output of an upstream node that itself still has >= 2 state axes"""
+    res = ref_wf.evaluate(spec, wfin=case.get("wfin") or {})
+    for nd in spec["nodes"]:
+        for r in (nd.get("split") or {}).get("vals", {}).values():
+            if r[0] == "node" and len(res[r[1]].axes) >= 2:
+                return True
+    return False
+
+
 def dual_use_nodes(spec):
     """nodes that use one upstream output both as a split source and as a plain input"""
     out = []
@@ -240,6 +250,8 @@ def decide(case, wctx):
             r["mech"] = "shared-origin-upstreams"
         elif all_inherited_axes_combined(spec, case) and ("max() iterable argument is empty" in err or err.startswith("IndexError")):
             r["mech"] = "own-splitter-with-all-upstream-axes-combined"
+        elif err.startswith("AssertionError") and split_over_multi_axis_list(spec, case):
+            r["mech"] = "split-over-multi-axis-upstream-list"
         return r
     mism = []
     # nested workflow nodes log under their sub-node names; a W node is tainted with its parent
